@@ -232,11 +232,40 @@ def materialise(thorough):
     env = []
     segs = {'ISA': ref.isa(ctl='000000002')[:-1], 'GS': 'GS*HC*S*R*20040102*1200*1*X*004010X098A1', 'ST': 'ST*837*0001', 'X': 'BHT*0019*00*A*20040102*1200*CH',
             'SE': 'SE*2*0001', 'GE': 'GE*1*1', 'IEA': 'IEA*1*000000001', 'HL': 'HL*1**20*1'}
-    names = ['ISA', 'GS', 'ST', 'X', 'SE', 'GE', 'IEA'] + (['HL'] if thorough else [])
+    segs['TA1'] = 'TA1*000000001*040102*1200*A*000'
+    names = ['ISA', 'GS', 'ST', 'X', 'SE', 'GE', 'IEA', 'TA1'] + (['HL'] if thorough else [])
     for n in range(0, (5 if thorough else 4) + 1):
         for tup in itertools.product(names, repeat=n):
-            env.append(('envseq|' + '-'.join(tup), ref.isa() + '\n' + ''.join(segs[k] + '~\n' for k in tup), ['ST_LOOP']))
+            env.append(('envseq|' + '-'.join(tup), ref.isa() + '\n' + ''.join(segs[k] + '~\n' for k in tup), ['ST_LOOP', 'GS_LOOP', 'ISA_LOOP']))
     ITEMS['envseq'] = env
+    # every element value of the base documents replaced by each hostile value (multi-hyphen ranges, braces, format
+    # directives, backslash, signs without digits, exponents, blanks, zero / all-nine dates, 300 characters)
+    vm = []
+    for lab, txt, loops in bases:
+        if not (lab.startswith('min:') or (thorough and len(txt) <= 1500)):
+            continue
+        for ml, mt in corpus.value_mutations(txt):
+            vm.append(('%s|%s' % (lab, ml), mt, loops))
+    # ... and, on one all-filled / last-code document per map (these carry RD8, TM, DT qualified values), the values
+    # governed by a date/time format qualifier
+    for e in corpus.one_entry_per_map():
+        if not thorough and e[4] not in ('837.4010.X098.A1.xml', '837.5010.X222.A1.xml', '835.5010.X221.A1.xml', '834.4010.X095.A1.xml', '277.5010.X214.xml', '278.4010.X094.A1.xml'):
+            continue
+        for pname, plan in (('all-filled-last', {'all': True, 'fill_all': True, 'code': 'last'}), ('all-filled', {'all': True, 'fill_all': True})):
+            dd = corpus.build_ok(e, plan)
+            if dd is None:
+                continue
+            for ml, mt in corpus.governed_value_mutations(dd.text(eol='\n')):
+                vm.append(('%s:%s|%s' % (pname, e[4], ml), mt, ['ST_LOOP']))
+    ITEMS['values'] = vm
+    # one skeleton interchange per entry of maps.xml: every map the index names must load (or be refused as documented)
+    mk = []
+    for (icvn, vriic, fic, tspc, fname, abbr) in G.index():
+        st = 'ST*%s*0001' % abbr + ('*' + vriic if icvn == '00501' else '')
+        body = ['GS*%s*S*R*20040102*1200*1*X*%s' % (fic, vriic), st] + (['BHT*0019*%s*A*20040102*1200' % tspc] if tspc else []) + \
+               ['SE*%d*0001' % (3 if tspc else 2), 'GE*1*1', 'IEA*1*000000001']
+        mk.append(('mapkey|%s' % fname, ref.isa(icvn) + '\n' + ''.join(x + '~\n' for x in body), ['ISA_LOOP', 'GS_LOOP', 'ST_LOOP']))
+    ITEMS['mapkeys'] = mk
     if thorough:
         # pairs of mutations: second applied to the result of the first, on three small minimal documents, restricted to
         # the operators that change the envelope / segment structure (the others are covered singly on every document)
@@ -266,6 +295,8 @@ def work(shard):
             continue
         if family == 'configs':
             sinksets, charsets = SINKSETS, ['B', 'E']
+        elif family == 'mapkeys':
+            sinksets, charsets = [(), ('ack', 'html', 'xml')], ['B', 'E']
         elif family in ('mut1', 'char'):
             sinksets, charsets = ([(), ('ack', 'html', 'xml')] if THOROUGH else [('ack', 'html', 'xml')]), ['E']
         elif family == 'mut2':
@@ -294,11 +325,13 @@ def run(R):
             shards.append((fam, p, n))
     R.cov['texts_per_family'] = dict((k, len(v)) for k, v in ITEMS.items())
     R.pmap(work, shards)
-    R.bounds = {'mut1': 'every single structural mutation (delete, duplicate, swap, truncate, retag, bare, extra elements/components, 9000-char element, orphan SE/GE/IEA/ST/GS/HL/LX with and without elements, empty/blank line, 5 bad counts) at every position of %d base documents, x sinks %s' % (len(base_docs(R.thorough)), '{none, all}' if R.thorough else '{all}'),
+    R.bounds = {'mut1': 'every single structural mutation (delete, duplicate, swap, truncate, retag, bare, first element only, 20 / 100 extra elements, extra components, 9000-char element, orphan SE/GE/IEA/ST/GS/HL/LX with and without elements, inserted TA1 (good and bad) and unknown segment, empty/blank line, 5 bad counts) at every position of %d base documents, x sinks %s' % (len(base_docs(R.thorough)), '{none, all}' if R.thorough else '{all}'),
                 'char': 'every prefix and every single-character substitution by {seg, ele, sub, SP, LF, A} of 2 small documents',
                 'strings': 'all strings <=4 over {I,S,A,*,~,SP,LF}, alone and after a well-formed ISA; 11 special headers',
                 'configs': 'every base document x 8 sink subsets x charset {B,E}',
-                'envseq': 'every sequence of length <=%d over {ISA,GS,ST,body,SE,GE,IEA%s} after a well-formed ISA' % (5 if R.thorough else 4, ',HL' if R.thorough else ''),
+                'envseq': 'every sequence of length <=%d over {ISA,GS,ST,body,SE,GE,IEA,TA1%s} after a well-formed ISA; context reader with loop id None, ST_LOOP, GS_LOOP, ISA_LOOP' % (5 if R.thorough else 4, ',HL' if R.thorough else ''),
+                'values': 'every element and component of every segment of the %s replaced by each of %d hostile values; plus every value governed by a date/time format qualifier (D8, RD8, TM, DT, D6) in the all-filled first-code and last-code documents of %s' % ('minimal documents and suite documents <= 1500 bytes' if R.thorough else 'minimal documents', len(corpus.HOSTILE), 'every map' if R.thorough else '6 maps'),
+                'mapkeys': 'one skeleton interchange per entry of maps.xml (%d), sinks {none, all} x charset {B,E}, context reader with None / ISA_LOOP / GS_LOOP / ST_LOOP' % len(ITEMS['mapkeys']),
                 'mut2': 'every pair of structural mutations (first in delete/duplicate/swap/truncate/insert-orphan/bare/retag, second in delete/duplicate/bare/bad count/orphan header or trailer) of three minimal documents' if R.thorough else 'not run in quick'}
     R.assumptions = ['documented refusals: X12Error iff the reference finds an ISA that is not well formed; EngineError "Map not found" iff the (ISA12, GS08, GS01[, BHT02]) key is absent from my reading of maps.xml',
                      'the context reader is driven with loop id None and one loop id occurring in the document']
